@@ -77,6 +77,9 @@ func snapshotPhase1(res *scn.Result) {
 		res.Probes["unbuffered_channel_rendezvous"] = zzsim.Rendezvous
 	}
 	res.Faults["forced_gc"] = zzsim.GCFired
+	if zzsim.StallsApplied > 0 {
+		res.Faults["task_stalled_decisions"] = zzsim.StallsApplied
+	}
 	if zzsim.ClockJumpFaults > 0 {
 		res.Faults["clock_jump"] = zzsim.ClockJumpFaults
 	}
